@@ -90,39 +90,6 @@ func (r *runner) checkSeek(what string, id int, sr seekRange, got []kv) {
 	if sameKVs(got, want) {
 		return
 	}
-	// Known shape: backwards with a non-empty start on a disk backend also yields keys that
-	// properly extend prefix‖start (seekRangeToPrefixes bounds by BytesPrefix(prefix‖start)),
-	// while the cache layers filter them out, so such keys come from the disk as they are there.
-	if sr.bw && len(sr.start) > 0 && w.nodes[0].kind != "mem" {
-		full := sr
-		full.lim = 0
-		gotFull, _ := realSeek(w.nodes[id].st, full)
-		if sr.cut {
-			for i := range gotFull {
-				gotFull[i].k = gotFull[i].k[len(sr.pfx):]
-			}
-		}
-		ps := append(bytes.Clone(sr.pfx), sr.start...)
-		var rest []kv
-		ext := 0
-		for _, e := range gotFull {
-			fk := e.k
-			if sr.cut {
-				fk = append(bytes.Clone(sr.pfx), e.k...)
-			}
-			if properExt(fk, ps) {
-				ext++
-				continue
-			}
-			rest = append(rest, e)
-		}
-		if ext > 0 && sameKVs(rest, specSeek(m, full)) {
-			r.o.Fail("backward-start-extension", r.k, "%s store=%d backend=%s prefix=%s start=%s backwards: %d key(s) properly extending prefix‖start returned from the disk backend; got %s want %s",
-				what, id, w.nodes[0].kind, hx.Hex(sr.pfx), hx.Hex(sr.start), ext, showKVs(got), showKVs(want))
-			r.o.Count("oracle:backward-start-extension")
-			return
-		}
-	}
 	r.o.Fail("seek-mismatch", r.k, "%s store=%d backend=%s prefix=%s start=%s bw=%v depth=%d cut=%v lim=%d got %s want %s",
 		what, id, w.nodes[0].kind, hx.Hex(sr.pfx), hx.Hex(sr.start), sr.bw, sr.depth, sr.cut, sr.lim, showKVs(got), showKVs(want))
 }
@@ -166,9 +133,6 @@ func (r *runner) checkTail(what string, id int, sr seekRange, got, tail []kv) {
 	want := specSeek(r.w.view(id, sr.depth), full)
 	all := append(append([]kv{}, got...), tail...)
 	if len(all) > len(want) || !sameKVs(all, want[:len(all)]) {
-		if sr.bw && len(sr.start) > 0 && r.w.nodes[0].kind != "mem" {
-			return // judged by checkSeek on the full range
-		}
 		r.o.Fail("seek-async-tail", r.k, "%s store=%d: items after cancel do not continue the sequence: got %s + %s", what, id, showKVs(got), showKVs(tail))
 	}
 }
@@ -662,31 +626,7 @@ func (r *runner) opSeekGC(id int, sr seekRange, mod int) {
 	}
 	want := specSeek(own, sr)
 	if !sameKVs(got, want) {
-		ps := append(bytes.Clone(sr.pfx), sr.start...)
-		known := false
-		if sr.bw && len(sr.start) > 0 && !n.cached() && n.kind != "mem" {
-			full := sr
-			full.lim = 0
-			wantFull := specSeek(own, full)
-			// the disk answer: the keys extending prefix‖start come first
-			var ext []kv
-			for k, v := range own {
-				if properExt([]byte(k), ps) {
-					ext = append(ext, kv{[]byte(k), v})
-				}
-			}
-			sort.Slice(ext, func(i, j int) bool { return bytes.Compare(ext[i].k, ext[j].k) > 0 })
-			all := append(ext, wantFull...)
-			if sr.lim > 0 && len(all) > sr.lim {
-				all = all[:sr.lim]
-			}
-			known = len(ext) > 0 && sameKVs(got, all)
-		}
-		if known {
-			r.o.Fail("backward-start-extension", r.k, "SeekGC store=%d backend=%s prefix=%s start=%s backwards visits keys properly extending prefix‖start: got %s want %s", id, n.kind, hx.Hex(sr.pfx), hx.Hex(sr.start), showKVs(got), showKVs(want))
-		} else {
-			r.o.Fail("seekgc-mismatch", r.k, "SeekGC store=%d kind=%s prefix=%s start=%s bw=%v lim=%d mod=%d got %s want %s", id, n.kind, hx.Hex(sr.pfx), hx.Hex(sr.start), sr.bw, sr.lim, mod, showKVs(got), showKVs(want))
-		}
+		r.o.Fail("seekgc-mismatch", r.k, "SeekGC store=%d kind=%s prefix=%s start=%s bw=%v lim=%d mod=%d got %s want %s", id, n.kind, hx.Hex(sr.pfx), hx.Hex(sr.start), sr.bw, sr.lim, mod, showKVs(got), showKVs(want))
 	}
 	for _, e := range got {
 		if !keepKey(e.k, mod) {
@@ -889,6 +829,7 @@ func runCase(o *hx.Out, f *hx.Flags, k int, kind string, nops int, corpus func(r
 	o.Case(k)
 	if corpus != nil {
 		corpus(r)
+		o.Sample(fmt.Sprintf("case %d: corpus case on backend %s", k, kind))
 		return
 	}
 	r.buildTree()
@@ -897,6 +838,9 @@ func runCase(o *hx.Out, f *hx.Flags, k int, kind string, nops int, corpus func(r
 	}
 	r.finalChecks()
 	o.Seen(fmt.Sprintf("%d", k))
+	if o.Cases <= 8 {
+		o.Sample(fmt.Sprintf("case %d: backend %s, %d stores, %d ops, %d keys in use", k, kind, len(w.nodes), nops, len(r.g.pool)))
+	}
 }
 
 func main() {
